@@ -550,6 +550,20 @@ func genConc(r *simrt.Rand, cfg *Config, pools *Pools, heavyReaders, linear bool
 				op.Lid = lid
 			case "search", "sdel":
 				op.Q = &Query{First: g.cmp()}
+				if k == "search" && r.Chance(1, 3) {
+					// pattern searches, preferably on an indexed string field (every operator
+					// has its own path through the index code)
+					var sp []string
+					for _, pth := range sortedKeys(cfg.Cons) {
+						if stringPaths[pth] && cfg.Cons[pth].Indexed() {
+							sp = append(sp, pth)
+						}
+					}
+					if len(sp) == 0 {
+						sp = []string{"S", "Lo", "In.S"}
+					}
+					op.Q = &Query{First: Cmp{Path: sp[r.Intn(len(sp))], Op: "~=", V: Val{T: "string", S: []string{"^a", "b$", "(?i)ab", ".", "[A-Z]"}[r.Intn(5)]}}}
+				}
 				if k == "search" {
 					op.Mode = []string{"len", "collect"}[r.Intn(2)]
 					if op.Mode == "collect" && r.Bool() {
